@@ -22,7 +22,7 @@ func clone(r *Record) *Record {
 // coded and two mutations violate the design model.
 func SelfTest(ctx *core.Ctx) error {
 	p := &Program{World: map[string]string{"e1": "valres", "e2": "nilres", "m1": "defer", "m2": "obj", "ms": "self", "k1": "obj", "d1": "more", "d2": "embedat"},
-		Calls: []Call{{"Embed", "m1"}, {"GetReference", "e1"}, {"StoreDeferred", "e1"}, {"Store", "e2"}, {"StoreEncoded", "e2"}, {"Embed", "m1"}, {"Close", ""}, {"Close", ""}},
+		Calls:  []Call{{"Embed", "m1"}, {"GetReference", "e1"}, {"StoreDeferred", "e1"}, {"Store", "e2"}, {"StoreEncoded", "e2"}, {"Embed", "m1"}, {"Close", ""}, {"Close", ""}},
 		Origin: "selftest"}
 	good, err := execute(p)
 	if err != nil {
